@@ -12,6 +12,11 @@ C08 — long-running operations.
                              `exception` as a small command language over the cached operation (`step`/`exec`);
                              operations_v1 REST transport's choice of the GetOperation URL (`opsGetPath`).
 
+Sub-packages: `lroInfo`, `loadService` and `opsGetPathOf` take the package from the FILE that declares the service
+(`service_address.package`, `Service.meta.address.package`), never from the API's package (`naming.proto_package`);
+the sub-package VIEW of the API under which the per-service templates are rendered changes nothing the LRO code reads
+(`api.http_options` comes from the service config, `service.has_lro` / `method.lro` from the service).
+
 NOT modelled (reached only through T3, or not at all):
   * `OperationInfo.with_context` / `Method.ref_types` / `Service.names` (which modules the emitted client imports and which
     collisions arise): the collision set is an INPUT of `moduleAlias`; T3 observes the result at run time.
@@ -396,6 +401,16 @@ def opsGetPath (table : List (Str × List Row)) (pathPrefix name : Str) : Option
     | some e => e.2
     | none => [⟨"get".toList, '/' :: pathPrefix ++ "/{name=**/operations/*}".toList, none⟩]
   transcodeName rows name
+
+/-- `Service.client_package_version` = `self.meta.address.package[-1]`: the LAST segment of the package of the FILE THAT
+DECLARES the service (`Address.package = tuple(file.package.split("."))`), not a segment of the API's package: for a
+service declared in the sub-package `acme.lib.v1.keepers` it is `keepers`, not the API version `v1`. -/
+def clientPackageVersion (pkg : Str) : Str := ((splitOn '.' pkg).getLast?).getD []
+
+/-- the poll URL of the REST operations client emitted for a service declared in file `f` (rest.py.j2:
+`path_prefix="{{ service.client_package_version }}"`) -/
+def opsGetPathOf (table : List (Str × List Row)) (f : File) (name : Str) : Option (Str × Str) :=
+  opsGetPath table (clientPackageVersion f.package) name
 
 /-! ### The future as an object: `metadata`, `done()`, `running()`, `cancel()`, `result()`, `exception()` -/
 
